@@ -164,6 +164,15 @@ pub const EXTS: &[&str] = &[".js", ".gif", ".png", ".html", "", ".css"];
 pub const QKEYS: &[&str] = &["utm", "id", "ref", "q"];
 pub const QVALS: &[&str] = &["1", "abc", "", "x_y"];
 pub const TYPES: &[&str] = &[
+    "main_frame",
+    "sub_frame",
+    "xhr",
+    "beacon",
+    "object",
+    "imageset",
+    "csp_report",
+    "speculative",
+    "",
     "script",
     "image",
     "stylesheet",
@@ -177,6 +186,20 @@ pub const TYPES: &[&str] = &[
     "ping",
 ];
 pub const TYPE_OPTS: &[&str] = &[
+    "media",
+    "ping",
+    "object",
+    "~xhr",
+    "~stylesheet",
+    "css",
+    "frame",
+    "beacon",
+    "doc",
+    "~subdocument",
+    "~websocket",
+    "~font",
+    "xmlhttprequest",
+    "object-subrequest",
     "script",
     "image",
     "stylesheet",
@@ -247,14 +270,14 @@ pub fn gen_pattern_t(r: &mut Rng, p_regexish: u32, tiny: bool) -> (String, bool)
 
 fn gen_domain_opt(r: &mut Rng) -> String {
     let mut parts: Vec<String> = vec![];
-    let n = r.range(1, 2);
+    let n = if r.chance(15) { r.range(3, 5) } else { r.range(1, 2) };
     for _ in 0..n {
         let neg = r.chance(30);
         let d = if r.chance(60) { pick_s(r, DOMAINS) } else { pick_s(r, HOSTS) };
         parts.push(format!("{}{}", if neg { "~" } else { "" }, d));
     }
     parts.dedup();
-    format!("domain={}", parts.join("|"))
+    format!("{}={}", if r.chance(20) { "from" } else { "domain" }, parts.join("|"))
 }
 
 pub fn gen_net_rule(r: &mut Rng, p: &Profile) -> NetRule {
@@ -301,7 +324,7 @@ pub fn gen_net_rule(r: &mut Rng, p: &Profile) -> NetRule {
         }
         4 => {
             exc = true;
-            opts.push("generichide".to_string());
+            opts.push(if r.chance(20) { "ghide".to_string() } else { "generichide".to_string() });
         }
         _ => {}
     }
@@ -316,7 +339,7 @@ pub fn gen_net_rule(r: &mut Rng, p: &Profile) -> NetRule {
         }
     }
     if r.chance(25) {
-        opts.push(pick_s(r, &["third-party", "~third-party", "1p", "3p"]));
+        opts.push(pick_s(r, &["third-party", "~third-party", "1p", "3p", "first-party", "~first-party", "~3p", "~1p"]));
     }
     if r.chance(25) {
         opts.push(gen_domain_opt(r));
@@ -440,8 +463,19 @@ pub fn gen_url_t(r: &mut Rng, non_ascii: bool) -> String {
         _ => "ftp",
     };
     let h = *r.pick(HOSTS);
-    let mut s = format!("{}://{}", scheme, h);
-    let nseg = r.range(1, 3);
+    // unusual but legal authority shapes
+    let authority = match r.below(40) {
+        0 => format!("{}:8080", h),
+        1 => h.to_uppercase(),
+        2 => format!("user:pw@{}", h),
+        3 => format!("{}.", h),
+        4 => "192.168.1.10".to_string(),
+        5 => format!("{}:443", h),
+        _ => h.to_string(),
+    };
+    let mut s = format!("{}://{}", scheme, authority);
+    // most paths are short; a few are long (many tokens, but below the tokenizer's buffer size)
+    let nseg = if r.chance(3) { r.range(20, 45) } else { r.range(1, 3) };
     for _ in 0..nseg {
         s.push('/');
         let seg = *r.pick(SEGS);
@@ -449,6 +483,8 @@ pub fn gen_url_t(r: &mut Rng, non_ascii: bool) -> String {
             0 => s.push_str(&format!("{}-{}", seg, r.pick(SEGS))),
             1 => s.push_str(&format!("x-{}-y", seg)),
             2 => s.push_str(&seg.to_uppercase()),
+            4 if r.chance(40) => s.push_str(&format!("{}%20{}", seg, r.pick(SEGS))),
+            5 if r.chance(30) => s.push_str(&format!("{}.{}_{}", seg, r.pick(SEGS), r.pick(SEGS))),
             // a raw non-ASCII letter right after the segment: a separator for byte-mode regexes,
             // a word character for Unicode-mode ones
             3 if non_ascii && r.chance(50) => s.push_str(&format!("{}{}", seg, r.pick(&["é", "ü", "漢", "éa"]))),
@@ -536,7 +572,7 @@ pub fn gen_world(seed: u64, p: &Profile) -> World {
             match r.below(5) {
                 0 => {
                     let taggable = p.tag_on_modifiers
-                        || !twin.opts.iter().any(|o| o.starts_with("redirect") || o.starts_with("removeparam") || o == "generichide");
+                        || !twin.opts.iter().any(|o| o.starts_with("redirect") || o.starts_with("removeparam") || o == "generichide" || o == "ghide");
                     twin.tag = if twin.tag.is_some() {
                         None
                     } else if p.p_tag > 0 && taggable {
@@ -546,7 +582,7 @@ pub fn gen_world(seed: u64, p: &Profile) -> World {
                     }
                 }
                 1 => {
-                    if !twin.opts.iter().any(|o| o.starts_with("removeparam") || o == "generichide" || o == "important") {
+                    if !twin.opts.iter().any(|o| o.starts_with("removeparam") || o == "generichide" || o == "ghide" || o == "important") {
                         twin.exc = !twin.exc
                     }
                 }
@@ -562,7 +598,7 @@ pub fn gen_world(seed: u64, p: &Profile) -> World {
                     }
                 }
                 _ => {
-                    twin.opts.retain(|o| !o.starts_with("domain="));
+                    twin.opts.retain(|o| !o.starts_with("domain=") && !o.starts_with("from="));
                 }
             }
             rules.push(Rule { spec: RuleSpec::Net(twin), perm });
